@@ -765,8 +765,86 @@ def rule_copy(ctx, res):
               'decoder loop condition changed: ' + t[:60], dec.loc)
 
 
+def rule_post(ctx, res):
+    """what `decompress_code` does to the decoded bytes before returning
+    them, decided by evaluation: the function is run (concrete-control
+    abstract interpreter) on hand-built well-formed streams that spell a text
+    with escaped literals only (0x00 b for every byte b, header length =
+    len(text)), for texts chosen to meet every post-processing step the
+    function has -- ends in either compatibility suffix, begins / ends with a
+    NUL byte -- and controls.  An independent decoder returns the text; so
+    must picotool (the clause "picotool's decompressor agrees with that
+    decoder on every well-formed stream"; the encoder's header length is the
+    text length, R-C04-header, so the same texts fail the round trip)."""
+    from ..absint import cx as CX
+    q = CZ + ':decompress_code'
+    try:
+        f = ctx.model.func(q)
+    except Exception:
+        res.vanished('R-C05-post', q, 'function', 'decompress_code not found')
+        return
+    fc1 = ctx.consts.module_const(CZ, 'PICO8_FUTURE_CODE1')
+    fc2 = ctx.consts.module_const(CZ, 'PICO8_FUTURE_CODE2')
+    cases = [
+        ('a plain text', b'x=1\nprint(x)\n'),
+        ('a text that mentions _update60', b'function _update60() end\n'),
+        ('a text with a NUL byte in the middle', b'a\x00b'),
+        ('a text that begins with a NUL byte', b'\x00ab'),
+        ('a text that ends with a NUL byte', b'ab\x00'),
+    ]
+    if isinstance(fc1, bytes):
+        cases.append(('a text that ends with PICO8_FUTURE_CODE1',
+                      b'x=1\n' + fc1))
+    if isinstance(fc2, bytes):
+        cases.append(('a text that ends with PICO8_FUTURE_CODE2',
+                      b'x=1\n' + fc2))
+    for (what, text) in cases:
+        stream = bytearray(b':c:\x00') + bytes([len(text) >> 8,
+                                                 len(text) & 255, 0, 0])
+        for b in text:
+            stream += bytes([0, b])
+        cxi = CX.Cx(ctx.model, ctx.consts)
+        inst = 'the escaped-literal stream of {} decodes to that text ' \
+            '(evaluated)'.format(what)
+        try:
+            paths = cxi.explore(lambda: cxi.call_function(
+                f, [CX.Seq('bytearray', list(stream))], {}))
+            if len(paths) != 1 or paths[0][0]:
+                raise CX.CxError('control flow forks on concrete data')
+            kind, val = paths[0][1]
+            if kind == 'raise':
+                res.violation('R-C05-post', q, inst,
+                              'decompress_code raises {} on the well-formed '
+                              'stream of {!r}'.format(val.tname, text),
+                              f.loc, semantic=True)
+                continue
+            parts = cxi.items(val)
+            code = parts[1] if len(parts) == 3 else None
+            if isinstance(code, CX.Seq):
+                code = bytes(code.items)
+            if not isinstance(code, (bytes, bytearray)):
+                raise CX.CxError('decompress_code returns {}'.format(
+                    type(code).__name__))
+        except AnalysisError as e:
+            res.undecided('R-C05-post', q, inst, 'evaluation could not '
+                          'follow decompress_code: ' + str(e)[:120], f.loc)
+            continue
+        code = bytes(code)
+        res.check(code == text, 'R-C05-post', q, inst,
+                  '{} bytes'.format(len(text)),
+                  'the stream 0x00-escapes the {} bytes of {!r}; an '
+                  'independent decoder returns them, decompress_code '
+                  'returns {!r} ({} bytes): what it strips after decoding is '
+                  'part of the text'.format(
+                      len(text), text[-24:] if len(text) > 24 else text,
+                      code[-24:] if len(code) > 24 else code, len(code)),
+                  f.loc, semantic=True)
+    res.require_min('R-C05-post', 5)
+
+
 def run(ctx, res):
     rule_format(ctx, res)
+    rule_post(ctx, res)
     rule_wellformed(ctx, res)
     rule_copy(ctx, res)
     from .c04 import rule_header
